@@ -228,7 +228,7 @@ def check(case):
                           'about z: currents scatter by %.3g, impedances by %.3g]' % (worst_i, worst_z)) for sig, det in fails]
         except build.Rejected:
             pass
-    if m0.power > 0 and m1.power > 0:
+    if common.net_power_ok(m0) and common.net_power_ok(m1):
         R = total_rotation(motion)
         dirs0 = case['dirs']
         dirs1 = [angles(R @ unit(*d)) for d in dirs0]
